@@ -19,14 +19,14 @@ CLAIMED = {
          "kernel runs (theorem LHS) = object machine (which executes the same kernels through stdOp) on ~2.5k cases incl. all operator pairs. The link kernel "
          "chain = object machine is itself a theorem: Rx.Sim.stdOp_sim (one operator) and Rx.Chain.chain_sim (chains of ANY length, any well-encoded "
          "kernels, any ready world: machine log = chainRun); time_interval / timestamp (values abstracted) in C02c.",
-         "§5 C02", "Lean 4 proof: kernel = list specification by induction + per-run four-way differential correspondence"),
+         "§5 C02", "Lean 4 proof: kernel = list specification by induction, machine = kernel chain by simulation (chain_sim) + per-run four-way differential correspondence"),
  "C04": ("Theorems Rx.C04.* (C04k: error passthrough for every non-handler kernel, same payload, terminal last, items before the error delivered; "
          "C04r: retry/retry_when/on_error_resume_next equal their list specs, subscription counts exact; demat_mat). REFINEMENT (C04Ref*.lean): the object "
          "machine's retry, retry_when and on_error_resume_next over flaky / scripted sources refine that mirror from any ready world (retry_refines, "
          "retryWhen_refines, resume_refines: log, subscription counter, nobody else disturbed), so the C04r statements hold of the machine "
          "(retry_machine_spec, …_error_identity). Tie: differential execution with "
          "errors injected at every script position, flaky sources, payload identity by a non-Clone payload type.",
-         "§5 C04", "Lean 4 proof: generic PassesErrors lemma + induction over attempts + per-run correspondence"),
+         "§5 C04", "Lean 4 proof: generic PassesErrors lemma + induction over attempts + machine refines the retry mirror + per-run correspondence"),
  "C05": ("Theorems Rx.C05.silent_forever, nothing_after_unsubscribe, unsubscribe_idempotent, is_subscribed_false_forever (generic over all machine "
          "programs) and Rx.C05c.* on the lock-level Observer LTS for the cross-thread clause (any number of threads, any interleaving). Tie: sequential "
          "cases with unsubscribe at every position + C05 predicate on implementation logs; concurrent clause co-simulated under C19's scenarios.",
@@ -49,7 +49,7 @@ CLAIMED = {
          "take_until_refines, zip_refines, skip_until_refines, sample_refines, flat_map_refines, switch_on_next_refines, combine_latest_refines: log, status, "
          "registrations per subject), so the list specs hold of the machine (…_machine_spec); sequence_equal (a tree of controllers): differential check only. "
          "Tie: on every hot-source history the check compares implementation = history machine = spec, and implementation = object machine on all cases.",
-         "§5 C03", "Lean 4 proof: history machines = list specs by induction + per-run three-way differential correspondence"),
+         "§5 C03", "Lean 4 proof: history machines = list specs by induction, machine refines history machines (ten operators) + per-run three-way differential correspondence"),
  "C06": ("Theorems Rx.C06.*: (kernel layer) every single-source kernel that ends its downstream while being fed has cancelled its upstream, for all inputs; "
          "(machine layer, from Rx.Sim.stdOp_sim_cancel) in the object machine - StreamController transliterated call by call - the observer an operator handed "
          "to its source is unsubscribed exactly when the kernel semantics says cancelled, from ANY ready start world; take/take_while stop an endless producer. "
@@ -80,7 +80,7 @@ CLAIMED = {
          "Tie: implementation = object machine on all cases; implementation = SubjM on directly "
          "subscribed call sequences (exhaustive up to length 3/4 + random); observer counts against live subscriptions. AsyncSubject (repaired, formerly finding F17) "
          "is additionally evaluated against a ReactiveX AsyncSubject reference on every case; async_every_subscriber / async_refines.",
-         "§5 C10", "Lean 4 proof: induction over call sequences of mirrored state machines + per-run differential correspondence"),
+         "§5 C10", "Lean 4 proof: induction over call sequences of mirrored state machines + machine refines them (all four subject kinds) + per-run differential correspondence"),
  "C11": ("Theorems Rx.C11 (C11.lean) on lock-level LTSs: merge through the StreamController with k input threads (never_two_terminals, last_one_out, "
          "merge_prefix, merge_conserves: multiset + per-input order + one complete last), take_at_most_n, amb_one_winner, zip_tuples (multiset of the i-th "
          "pairings; delivery order may differ), all scripts, any number of inputs, all interleavings. flat_map/concat share sink_* with merge and are covered by "
@@ -98,7 +98,7 @@ CLAIMED = {
          "(machine_publish_connects_only_on_connect, machine_ref_count_first_last, machine_replay_complete_history, …); the cold synchronous source is not "
          "proved (differential check only). "
          "Tie: implementation = object machine on all cases; implementation = ConnM (logs, source subscription count, registrations) on directly subscribed ones.",
-         "§5 C13", "Lean 4 proof: induction over call sequences of mirrored state machines + per-run differential correspondence"),
+         "§5 C13", "Lean 4 proof: induction over call sequences of mirrored state machines + machine refines them over hot sources + per-run differential correspondence"),
  "C15": ("partial: Theorems Rx.Timed.* (C15.lean) in virtual time: interval_exits_within_one_period (+ liveness), timer_exits, debounce_exits, "
          "timeout_timer_exits (one period; the model mirrors timeout.rs after the two timer-leak repairs found by this check and by the proof itself), "
          "timeout_timer_exits_partial, no_accumulation; with C08 worker_exits and C09 abort_only_after_end. Tie: ~125 scenarios thread-creating "
@@ -106,7 +106,7 @@ CLAIMED = {
          "seeded schedules in virtual time: every library thread has exited at quiescence and no later than one "
          "timer period after the subscription ended; PLUS co-simulation of the Timeout / Interval / Timer / Debounce / Rounds LTSs including the threads' "
          "exit instants (exitedAt). NOT modelled: OS thread teardown; nestings beyond the catalogue.",
-         "§5 C15", "Lean 4 proof (virtual-time LTSs, partial) + exploration in virtual time with thread accounting"),
+         "§5 C15", "Lean 4 proof (virtual-time LTSs, partial) + co-simulation (linearisability) of explored schedules + exploration in virtual time with thread accounting"),
  "C16": ("partial: Theorems Rx.Timed.* (C16.lean) in discrete virtual time, all periods and gap scripts, all interleavings within an instant: interval_ticks, "
          "timer_once, delay_times (order kept, hand-over d after receipt; delays accumulate because the source thread sleeps), timeout_exact (no ties), "
          "timeout_never_fires_on_slow_consumer (handling times of the consumer), debounce_subsequence, sample_subsequence. Tie: the real operators on the "
@@ -115,7 +115,7 @@ CLAIMED = {
          "Debounce, Sample): every explored schedule, including deliberate ties, is checked for linearisability against `step` with the recorded records "
          "(Interval's emit step was refuted this way and split). NOT modelled: real time, scheduling latency, Instant/SystemTime values; a next arriving "
          "at the exact instant a timeout fires (noTie).",
-         "§5 C16", "Lean 4 proof (virtual-time LTSs, partial) + exploration on a virtual clock"),
+         "§5 C16", "Lean 4 proof (virtual-time LTSs, partial) + Lean-computed expectations + co-simulation (linearisability) of explored schedules on a virtual clock"),
  "C12": ("Theorems Rx.Conc.* (C12.lean) on lock-level LTSs of Subject, ReplaySubject, BehaviorSubject for any number of threads and programs: "
          "stays_subscribed_gets_all, per_producer_gap_free, no_duplicates, late_subscriber_suffix, unsubscriber_prefix. The late-subscriber clauses for "
          "Replay/Behavior are proved FALSE under concurrency (replay_late_subscriber_violated, behavior_late_subscriber_violated: shortest witness "
